@@ -55,7 +55,7 @@ func useCheck(id, fam string, tier common.Tier) int {
 		lenAll, lenCore, depthB = 3, 4, 3
 	}
 	run.SetRule("state = (using package, annotation mix, history of declarations, each with a statement sequence); every state is rendered and analysed by the real analyzers via checker.Analyze and every candidate line compared with a reference that applies the once-per-file-and-type rule in textual order. Non-trivial = the reference expects at least one diagnostic.",
-		fmt.Sprintf("single declaration: all statement sequences of length<=%d over %d sites and length<=%d over %d core sites x %d enclosers x files {regular,_test}; histories of <=%d declarations (body with one core statement, or a declaration-level site) x 3 files; %d packages x %d mixes",
+		fmt.Sprintf("annotation subsets: all 32 subsets of the five annotated items x 4 declaration orders of the declaring package; single declaration: all statement sequences of length<=%d over %d sites and length<=%d over %d core sites x %d enclosers x files {regular,_test}; histories of <=%d declarations (body with one core statement, or a declaration-level site) x 3 files; %d packages x %d mixes",
 			lenAll, len(all), lenCore, len(core), 8, depthB, len(pkgs), len(mixes)))
 	run.Assume("go/parser, go/types, checker.Analyze trusted")
 	run.NotJudged("receiver of a method declared on a @testonly type", "@testonly types in the signature of a @testonly function",
@@ -99,6 +99,24 @@ func useCheck(id, fam string, tier common.Tier) int {
 								}
 								do(&e1.UseSpec{Pkg: pk, Mix: mix, Sites: sites, Blocks: []e1.UseBlock{{Encl: encl, File: file, Stmts: st}}})
 							})
+						}
+					}
+				}
+				// Phase C: which items carry the annotation (all 32 subsets) x order of the declarations in d.
+				if (fam == "TONL" && mix.TestOnly && mix.Allow == 0) || (fam == "PKGO" && (mix.Allow == 1 || mix.Allow == 5) && !mix.TestOnly) {
+					for skip := 0; skip < 32; skip++ {
+						for order := 0; order < 4; order++ {
+							if skip == 0 && order == 0 {
+								continue
+							}
+							m := mix
+							m.Skip, m.DeclOrder = skip, order
+							do(&e1.UseSpec{Pkg: pk, Mix: m, Sites: sites, Blocks: []e1.UseBlock{{Encl: e1.UEPlain, Stmts: all}, {Encl: e1.UEStructField, File: 1}, {Encl: e1.UEPkgVar, File: 1, Stmts: core}}})
+							if thorough || order == 0 || skip == 3 || skip == 28 {
+								for _, st := range all {
+									do(&e1.UseSpec{Pkg: pk, Mix: m, Sites: sites, Blocks: []e1.UseBlock{{Encl: e1.UEPlain, Stmts: []int{st}}}})
+								}
+							}
 						}
 					}
 				}
